@@ -15,7 +15,7 @@
    unguarded statements are refuted: exogenous_otherwise_refuted, conflict_rejected_refuted). *)
 From Coq Require Import String Ascii List Bool ZArith.
 Import ListNotations.
-Require Import PyBase Symbols Merge ParseEq ParseModel Classify ClassifyFacts ClassifyProgram ClassifyClass ClassifyMain ClassifyScript ClassifyExamples.
+Require Import PyBase Symbols Merge ParseEq ParseModel Classify ClassifyFacts ClassifyProgram ClassifyClass ClassifyMain ClassifyRange ClassifyScript ClassifyExamples.
 Open Scope string_scope.
 
 (* Every script: whatever the syntax-check oracle `chk`, a script that the parser model accepts IS a program (its
@@ -154,3 +154,26 @@ Theorem C03_default_range_short : forall n lags leads,
   else if (Z.of_nat n <=? lags)%Z || (Z.of_nat n <=? leads)%Z then Raise IndexError else Ret [].
 Proof. exact default_range_short. Qed.
 Print Assumptions C03_default_range_short.
+
+(* end to end, default options: the class built from an accepted program has LAGS / LEADS = the script's lengths, and its
+   default range on a long enough span is, once each, exactly the periods at which every written offset stays inside the span *)
+Theorem C03_default_lengths : forall p syms c, wf_program p = true -> fn_guard p = true ->
+  program_symbols p = Ret syms -> class_of syms default_opts = Ret c ->
+  c_lags c = script_lags p /\ c_leads c = script_leads p.
+Proof. exact default_lengths. Qed.
+Print Assumptions C03_default_lengths.
+Theorem C03_default_range_of_program : forall p syms c n l, wf_program p = true -> fn_guard p = true ->
+  program_symbols p = Ret syms -> class_of syms default_opts = Ret c ->
+  (script_lags p + script_leads p + 1 <= Z.of_nat n)%Z ->
+  default_range n (c_lags c) (c_leads c) = Ret l ->
+  NoDup l /\
+  forall t, In t l <-> (0 <= t < Z.of_nat n /\ forall k, In k (offsets (mentions p)) -> 0 <= t + k < Z.of_nat n)%Z.
+Proof. exact default_range_of_program. Qed.
+Print Assumptions C03_default_range_of_program.
+(* imposed or raised lengths only shrink the range: every period kept is still feasible *)
+Theorem C03_longer_lengths_stay_feasible : forall p n lags leads l,
+  (script_lags p <= lags)%Z -> (script_leads p <= leads)%Z -> (lags + leads + 1 <= Z.of_nat n)%Z ->
+  default_range n lags leads = Ret l ->
+  forall t, In t l -> (0 <= t < Z.of_nat n /\ forall k, In k (offsets (mentions p)) -> 0 <= t + k < Z.of_nat n)%Z.
+Proof. exact longer_lengths_stay_feasible. Qed.
+Print Assumptions C03_longer_lengths_stay_feasible.
